@@ -117,17 +117,31 @@ class Visitor(_BaseVisitor[T], abc.ABC):
 
     :param ob: An object to walk.
     """
+    self._walk(ob)
+
+  def _walk(self, ob: T) -> bool:
+    """
+    Implementation of `walk()`. 
+    
+    :returns: Whether the siblings of the object must be skipped.
+    """
+    skip_siblings = False
     try:
       self.visit(ob)
     except (self.SkipChildren, self.SkipNode):
-      return
+      return False
     except self.SkipDeparture:           
       pass # not applicable; ignore
+    except self.SkipSiblings:
+      # The current node's children are not affected.
+      skip_siblings = True
     try:
       for child in self.get_children(ob):
-          self.walk(child)
+          if self._walk(child):
+            break
     except self.SkipSiblings:
       pass
+    return skip_siblings
     
   def visit(self, ob: T) -> None:
     """Extend the base visit with extensions.
@@ -174,8 +188,17 @@ class Visitor(_BaseVisitor[T], abc.ABC):
 
     :param ob: An object to walk.
     """
+    self._walkabout(ob)
+
+  def _walkabout(self, ob: T) -> bool:
+    """
+    Implementation of `walkabout()`. 
+    
+    :returns: Whether the siblings of the object must be skipped.
+    """
     call_depart = True
     skip_node = False
+    skip_siblings = False
     try:
       try:
         self.visit(ob)
@@ -184,15 +207,20 @@ class Visitor(_BaseVisitor[T], abc.ABC):
         call_depart = False
       except self.SkipDeparture:           
         call_depart = False
+      except self.SkipSiblings:
+        # The current node's children and its departure are not affected.
+        skip_siblings = True
       if not skip_node:
         try:
           for child in self.get_children(ob):
-              self.walkabout(child)
+              if self._walkabout(child):
+                break
         except self.SkipSiblings:
           pass
     except self.SkipChildren:
       pass
     self.depart(ob, extensions_only=not call_depart)
+    return skip_siblings
 
 # Adapted from https://github.com/pawamoy/griffe
 # Copyright (c) 2021, Timothée Mazzucotelli
